@@ -81,6 +81,14 @@ def m_int(eng, st, args, kw, fr):
                 m = eng.find_class_attr(type(v), nm)
                 if m is not None and is_mp_function(m):
                     return eng.call(st, m, [v], {}, fr)
+    from .strings import SHex
+    if args and isinstance(args[0], SHex):
+        base = args[1] if len(args) > 1 else kw.get('base', 10)
+        if base != 16:
+            raise Unsupported('int(hex string, base != 16)')
+        if args[0].off not in (0, 2):
+            raise Unsupported('int of partially sliced hex string')
+        return _ret(st, args[0].n)      # int(hex(n), 16) == int(hex(n)[2:], 16) == n for n >= 0
     if has_sym(list(args)):
         raise Unsupported('int() of symbolic non-int')
     if has_unknown(list(args)):
